@@ -13,7 +13,7 @@
 From Coq Require Import PrimFloat.
 From PV Require Import Lib.Common Lib.FloatK Model.C01_Meiosis Model.C01_Mating Model.C09_Stats Model.C10_Limits.
 From PV Require Import Proofs.C01_Meiosis Proofs.C09_Stats Proofs.C10_Float Proofs.C10_Limits Proofs.C10_History.
-From PV Require Import Gen.C10_Kernel Proofs.C10_Kernel.
+From PV Require Import Gen.C10_Kernel Proofs.C10_Kernel Proofs.C10_Laws.
 Local Open Scope Z_scope.
 
 (** ENVELOPE — for every population, every additive model and every trait: lsl <= gebv(individual) <= usl for every member *)
@@ -212,6 +212,35 @@ Theorem C10_kernel_gamete : forall geno i s rnd xoprob, length rnd = length xopr
   gen_gamete geno i s rnd xoprob = Some (gamete geno s rnd xoprob).
 Proof. exact kernel_gamete. Qed.
 Print Assumptions C10_kernel_gamete.
+
+(** ** LAWS in the effects (what the session observations of the check are compared with: effects negated in place, a multiple
+    installed through the setter, on one and the same model object) *)
+(** negating every effect exchanges the two limits: usl(-u) = -lsl(u), lsl(-u) = -usl(u) — for every frequency vector and ploidy ... *)
+Theorem C10_negation_exchanges_limits : forall t ploidy p u freq k, model_ok p t u -> length freq = p -> (k < t)%nat ->
+  (nth k (usl_numpy t ploidy (qmapll Qopp u) freq) 0 == - nth k (lsl_numpy t ploidy u freq) 0)%Q /\
+  (nth k (lsl_numpy t ploidy (qmapll Qopp u) freq) 0 == - nth k (usl_numpy t ploidy u freq) 0)%Q.
+Proof. exact limits_negate. Qed.
+Print Assumptions C10_negation_exchanges_limits.
+
+(** ... a positive common factor of the effects factors out of both limits (scales 2^-40 ... 2^20 of the generators are instances) *)
+Theorem C10_scale_covariance : forall t ploidy p u freq k (c : Q), (0 < c)%Q -> model_ok p t u -> length freq = p -> (k < t)%nat ->
+  (nth k (usl_numpy t ploidy (qmapll (Qmult c) u) freq) 0 == c * nth k (usl_numpy t ploidy u freq) 0)%Q /\
+  (nth k (lsl_numpy t ploidy (qmapll (Qmult c) u) freq) 0 == c * nth k (lsl_numpy t ploidy u freq) 0)%Q.
+Proof. exact limits_scale. Qed.
+Print Assumptions C10_scale_covariance.
+
+(** ... and the same for the limits of a population *)
+Theorem C10_population_laws : forall t n p u geno k, wf n p geno -> model_ok p t u -> (k < t)%nat ->
+  ((nth k (usl t n p (qmapll Qopp u) geno) 0 == - nth k (lsl t n p u geno) 0)%Q /\
+   (nth k (lsl t n p (qmapll Qopp u) geno) 0 == - nth k (usl t n p u geno) 0)%Q) /\
+  forall c : Q, (0 < c)%Q ->
+   (nth k (usl t n p (qmapll (Qmult c) u) geno) 0 == c * nth k (usl t n p u geno) 0)%Q /\
+   (nth k (lsl t n p (qmapll (Qmult c) u) geno) 0 == c * nth k (lsl t n p u geno) 0)%Q.
+Proof. intros t n p u geno k H Hu Hk. split; [exact (pop_negate t n p u geno k H Hu Hk) | intros c Hc; exact (pop_scale t n p u geno k c Hc H Hu Hk)]. Qed.
+Print Assumptions C10_population_laws.
+
+Example C10_laws_hyps_satisfiable : (0 < 4)%Q /\ wf 2 3 ex_geno /\ model_ok 3 2 ex_u /\ length [0%float; 1%float; 0.5%float] = 3%nat.
+Proof. split; [reflexivity|]. split; [exact (proj1 ex_wf)|]. split; [exact (proj1 (proj2 ex_wf)) | reflexivity]. Qed.
 
 (** non-vacuity: a two-founder, three-locus, two-trait programme (two-way cross, then doubled haploids) meets every hypothesis,
     runs for two generations and strictly tightens the upper limit of both traits *)
